@@ -4,6 +4,9 @@ import json, os
 FILES = ["c09.go", "c02.go", "c01.go", "c01x.go", "c01file.go"]
 
 
+MAIN_ATTRS = ("none", "NOSPLIT", "NOFRAME", "NOSPLIT_NOFRAME", "NEEDCTXT", "NOSPLIT_NEEDCTXT_NOFRAME")
+
+
 def floors(ctx, sub, floors_):
     """Lower bounds on the number of judged cases per stream: silently dropped cases must not hide a failure."""
     st = ctx.coverage.get("input_distribution", {}).get(sub)
@@ -68,7 +71,9 @@ def file_route(ctx, driver="drv_c01"):
                                 "fn_kind:gp_over": nf // 10, "fn_kind:vec_over": nf // 25, "fn_kind:k_over": nf // 25,
                                 "fn_kind:hb_over": nf // 25, "fn_kind:rex_clash": nf // 25, "fn_kind:bad_label": nf // 25,
                                 "fn_route:ok": nf, "fn_route:err": nf // 2,
-                                "compiled_functions_judged_with_virtuals": nf // 3, "printed_files": nf // 6})
+                                "compiled_functions_judged_with_virtuals": nf // 3, "printed_files": nf // 6,
+                                # function-level context of the functions of successfully compiled files
+                                **{f"compiled:attr:{a}": nf // 25 for a in MAIN_ATTRS}})
         ceilings(ctx, "c01file", {"failing_builder_compiled": 0, "compiled_function_not_judged": 0, "print_error": 0,
                                   "file_build_rejected": 0})
     ctx.coverage["file_route_rule"] = (
